@@ -282,7 +282,7 @@ func init() {
 			"distinct_nontrivial = distinct (action sequence, applicable?) pairs",
 		Cases: func(master uint64, tier string) []Case {
 			if tier == "thorough" {
-				return seqCases(master, 40000, nil)
+				return seqCases(master, 400000, nil)
 			}
 			return seqCases(master, 2500, nil)
 		},
@@ -297,7 +297,7 @@ func init() {
 			"value-identical before and after. distinct_nontrivial = distinct shapes (operation kinds x which pointer is protected) of lists that were validated and applied",
 		Cases: func(master uint64, tier string) []Case {
 			if tier == "thorough" {
-				return seqCases(master, 60000, nil)
+				return seqCases(master, 600000, nil)
 			}
 			return seqCases(master, 3000, nil)
 		},
